@@ -86,9 +86,38 @@ func (f *parserFlow) resolveCalls() {
 					return
 				}
 			}
+			// a choice among named functions or closures (`parse := A; if c { parse = B }; parse(x)`)
+			if fs, ok := funcChoice(cc.Value, 0); ok && len(fs) > 0 {
+				f.calleesOf[ci] = fs
+				return
+			}
 			f.unresolved = append(f.unresolved, ci)
 		})
 	}
+}
+
+// funcChoice: v is a function, a closure, or a phi / single-store local of such.
+func funcChoice(v ssa.Value, depth int) ([]*ssa.Function, bool) {
+	if depth > 4 {
+		return nil, false
+	}
+	switch x := unspill(stripChange(v)).(type) {
+	case *ssa.Function:
+		return []*ssa.Function{x}, true
+	case *ssa.MakeClosure:
+		return []*ssa.Function{x.Fn.(*ssa.Function)}, true
+	case *ssa.Phi:
+		var out []*ssa.Function
+		for _, e := range x.Edges {
+			fs, ok := funcChoice(e, depth+1)
+			if !ok {
+				return nil, false
+			}
+			out = append(out, fs...)
+		}
+		return out, true
+	}
+	return nil, false
 }
 
 // discardsLookahead: in stores false into parser.peeked — the look-ahead token is dropped, so the next peek reads on.
